@@ -119,7 +119,7 @@ def run(tier):
                 runs.append((a, b, dict(cfg=cn, op=op, forgery=f, verdict=c["verdict"], via=via)))
                 chk.case((cn, op, via, json.dumps(f, sort_keys=True)), nontrivial=not authentic)
         # near-miss MACs (otherwise authentic Response): 12 single bits, 66 xor-cancelling pairs, 66 sum-cancelling pairs, rotations, partial MACs
-        if len(near) != 12 + 66 + 66 + 4 + 11 + 1 + 11 + 11:
+        if len(near) != 12 + 66 + 66 + 4 + 11 + 1 + 11 + 11 + 11 + 3:
             raise ToolError("near-miss MAC family incomplete: %d" % len(near))
         for ni, c in enumerate(near):
             if not thorough and c["nearmac"]["kind"] in ("pair", "sum") and (ni + SEED) % 2 and (c["nearmac"]["j"] - c["nearmac"]["i"]) % 4:
